@@ -810,7 +810,39 @@ func c28ChangesExec(h c28Hist) vh.Out {
 	for i, e := range obs.desired {
 		des[i] = e.String()
 	}
-	return vh.Out{Observed: map[string]interface{}{"root": root, "current": cur, "desired": des, "changes": chs, "dirs": obs.dirs},
+	// desired entries that are absent afterwards, and desired entries shadowed by a different helper entry of the
+	// current profile on the same (dir, type) (reuse is keyed by that pair only)
+	present := map[string]bool{}
+	for _, c := range obs.changes {
+		if c.Action != Unmount {
+			present[c.Entry.String()] = true
+		}
+	}
+	desiredIDs := map[string]bool{}
+	cdes := append([]osutil.MountEntry(nil), obs.desired...)
+	for i := range cdes {
+		cdes[i].Dir = filepath.Clean(cdes[i].Dir)
+		desiredIDs[cdes[i].XSnapdEntryID()] = true
+	}
+	missing, shadowed := []string{}, []string{}
+	for _, d := range cdes {
+		if !present[d.String()] {
+			missing = append(missing, d.String())
+		}
+		for _, c := range obs.current {
+			c.Dir = filepath.Clean(c.Dir)
+			helper := c.XSnapdOrigin() == "rootfs" || (c.XSnapdSynthetic() && desiredIDs[c.XSnapdNeededBy()])
+			if helper && c.Dir == d.Dir && c.Type == d.Type && !c.Equal(&d) {
+				shadowed = append(shadowed, d.String())
+				break
+			}
+		}
+	}
+	if len(shadowed) > 0 {
+		tags = append(tags, "desired-shadowed-by-helper")
+	}
+	return vh.Out{Observed: map[string]interface{}{"root": root, "current": cur, "desired": des, "changes": chs, "dirs": obs.dirs,
+		"missing": missing, "shadowed": shadowed},
 		Coq: coq, NonTrivial: nk+nu > 0 && nm > 0, Tags: tags}
 }
 
@@ -950,6 +982,19 @@ func c28Mutate(r *vh.Rand, prev []c28Ent, pool []string) []c28Ent {
 			out = append(out, e)
 		}
 	}
+	if len(prev) > 0 && r.Chance(1, 5) { // a tmpfs on the directory above an existing entry: where a mimic may sit
+		parent := filepath.Dir(filepath.Clean(string(prev[r.Intn(len(prev))].Dir)))
+		if strings.HasPrefix(parent, "@/") {
+			e := c28Ent{Name: []byte("tmpfs"), Dir: []byte(parent), Type: []byte("tmpfs"), Opts: [][]byte{[]byte("mode=0755")}}
+			if r.Bool() {
+				e.Opts = append(e.Opts, []byte("x-snapd.origin=layout"))
+			}
+			if !seen[c28CleanKey(e)] {
+				seen[c28CleanKey(e)] = true
+				out = append(out, e)
+			}
+		}
+	}
 	for _, e := range c28Profile(r, r.Range(0, 3), pool) {
 		if !seen[c28CleanKey(e)] {
 			seen[c28CleanKey(e)] = true
@@ -1056,6 +1101,16 @@ func c28ChangesGen(r *vh.Rand, tier string, n int) []c28Hist {
 		{bind("@/a"), bind("@/a-x"), bind("@/a/b"), bind("@/a.d/c"), bind("@/a.d")},
 		{bind("@/a", "ro"), bind("@/a-x"), bind("@/a/b"), bind("@/a.d/c"), bind("@/a.d", "ro")},
 		{bind("@/a/b"), bind("@/a-x")}}})
+	// witness of desired-shadowed-by-helper: /a exists, /a/b does not -> the first update builds a writable mimic (synthetic
+	// tmpfs on /a needed by /a/b); the second profile adds a tmpfs layout on /a itself: same (dir, type) as the mimic, which is
+	// reused, so the desired tmpfs is neither mounted nor recorded
+	tmpfsOn := func(dir string) c28Ent {
+		return c28Ent{Name: b("tmpfs"), Dir: b(dir), Type: b("tmpfs"), Opts: [][]byte{b("mode=0755"), b("x-snapd.origin=layout")}}
+	}
+	fixed = append(fixed, c28Hist{Dirs: []string{"a"}, Steps: [][]c28Ent{
+		{bind("@/a/b", "x-snapd.origin=layout")},
+		{tmpfsOn("@/a"), bind("@/a/b", "x-snapd.origin=layout")},
+		{tmpfsOn("@/a"), bind("@/a/b", "x-snapd.origin=layout")}}})
 	for _, h := range fixed {
 		for k := range h.Steps {
 			hh := h
